@@ -114,6 +114,24 @@ def run(ctx):
                   "a character inside a comment can still make the line an error (%s)" % [f.loc(x) for x in bad], f.loc(b, i))
     ctx.floor("C14.3", "transitions into the comment state", n_c, 1)
 
+    # a token's slice starts where the token started: the `start` a reading state carries is the index of the character
+    # that opened it (the index half of the char_indices element) or the start carried by the state it continues
+    plz = prog.fn(HD + "parse_line")
+    plzr = A.Resolver(plz)
+    n_start = 0
+    for b, i, st in A.aggregates(plz, HD + "State"):
+        d_ = dict(plzr.rvalue(st["rv"], (b, i))[3])
+        if "start" not in d_:
+            continue
+        n_start += 1
+        v = A.peel(d_["start"])
+        from_index = v[0] == "field" and v[2] == "0" and (A.iter_elem_source(v[1]) is not None) and \
+            any(x[0] == "call" and x[1].endswith("<impl str>::char_indices") and A.peel(x[2][0]) == ("param", 1) for x in A.walk(A.iter_elem_source(v[1])))
+        carried = v[0] == "field" and v[2] == "start"
+        ctx.check(from_index or carried, "C14.3", "parse_line:token-start#%d" % n_start, "a reading state starts at the index of the current character",
+                  "a token is taken to start at %s" % A.show(d_["start"])[:80], plz.loc(b, i))
+    ctx.floor("C14.3", "reading states constructed in parse_line", n_start, 2)
+
     # ---------------------------------------------------------------- C14.2 (text -> mapping): the address stored is the
     # address as parsed - its family is read off the parsed value itself, nothing converts it in between
     def projection_base(e):
@@ -207,6 +225,13 @@ def run(ctx):
                     visited.append(True)          # the element an iterator adaptor hands to its closure (`.map(|zr| zr.to_rr(name))`)
                 else:
                     visited.append(src is not None)
+        # ... and none of its loops is left early (a `break` after the first address would drop the other family): an exit
+        # that is not the iterator running out may only lead straight to a return (the strict converter's errors)
+        headers = {h for h, _ in g.loops()}
+        ins_blocks = {b for b, t in A.call_blocks(g, A.name_endswith("HashMap::<K, V, S, A>::insert"))}
+        early = [(h, a, s_) for h, a, s_ in A.early_loop_exits(g, gc) if (headers | ins_blocks) & set(g.reachable(s_))]
+        ctx.check(not early, "C14.5", "%s:no-early-exit" % A.short(g.key), "every record of every name is visited: the loops end only when exhausted (or with an error)",
+                  "a loop is left early at %s (records after that point are not converted)" % [g.loc(a) for h, a, s_ in early], g.loc(early[0][1]) if early else g.loc())
         ctx.check(bool(visited) and all(visited), "C14.5", "%s:all-records" % A.short(g.key), "every record of every name is looked at", "only some records of a name are converted (%s)" % visited, g.loc())
         ok = table.get("v4") == (["A"], "A", "address") and table.get("v6") == (["AAAA"], "AAAA", "address")
         ctx.check(ok, "C14.2", "%s:family-table" % A.short(g.key), "A -> v4, AAAA -> v6", "zone -> hosts conversion is %s" % table, g.loc())
